@@ -66,7 +66,7 @@ def tlc(module, cfg, workdir, workers=4, env=None, timeout=1800, coverage=False,
 
 
 _STATES = re.compile(r"(\d+) states generated, (\d+) distinct states found")
-_COV = re.compile(r"^<(\w+) line \d+, col \d+ to line \d+, col \d+ of module (\w+)>: (\d+):(\d+)", re.M)
+_COV = re.compile(r"^<(\w+) line \d+, col \d+ to line \d+, col \d+ of module (\w+)(?: \([^)]*\))?>: (\d+):(\d+)", re.M)
 
 
 def parse_states(out):
